@@ -971,9 +971,21 @@ class Node:
             if conn.host_identity not in self._peer_waiting_answer:
                 self._peer_waiting_answer[conn.host_identity] = {}
             waiting = self._peer_waiting_answer[conn.host_identity]
-            waiting[(message.header.hop_by_hop_identifier,
-                     message.header.end_to_end_identifier)] = time.time()
-            receiving_app.receive_request(message)
+            waiting_id = (message.header.hop_by_hop_identifier,
+                          message.header.end_to_end_identifier)
+            waiting[waiting_id] = time.time()
+            try:
+                receiving_app.receive_request(message)
+            except Exception as e:
+                if waiting_id in self._peer_waiting_answer.get(
+                        conn.host_identity, {}):
+                    raise
+                # the application has submitted its answer before it
+                # failed; a request is not answered twice
+                self.logger.error(
+                    f"{conn} {receiving_app} failed after answering request "
+                    f"{hex(message.header.hop_by_hop_identifier)}: {e}",
+                    exc_info=True)
             return
 
         self.logger.warning(
